@@ -59,7 +59,7 @@ def run(ctx):
 
 # --------------------------------------------------------------------------------------------------------------------------------
 def needs_stat(ctx, f, cfg):
-    ns = f.one("flow::rule::Rule::need_statistic")
+    ns = f.raw(f.one("flow::rule::Rule::need_statistic"))
     if not ctx.floor("C08.needs-stat", "flow Rule::need_statistic", 1 if ns else 0, 1):
         return
     cls = make_classifier([("control", ["field:Rule.control_strategy"], []), ("Reject", ["variant:ControlStrategy::Reject"], []),
@@ -85,7 +85,8 @@ def needs_stat(ctx, f, cfg):
 # --------------------------------------------------------------------------------------------------------------------------------
 def _calc_type(f):
     cands = [b for b in f.impl_methods("flow::traffic_shaping::Calculator", "calculate_allowed_threshold") if (b.impl_self or "").endswith("::WarmUpCalculator")]
-    return cands[0] if cands else None
+    # this module reads the calculator's own bodies as written (roles are found by data flow, whichever helper holds them)
+    return f.raw(cands[0]) if cands else None
 
 
 def _own_bodies(f, entry):
@@ -638,7 +639,7 @@ def valid(ctx, f, cfg):
     cands = [b for b in f.impl_methods("SentinelRule", "is_valid") if (b.impl_self or "").endswith("flow::rule::Rule")]
     if not ctx.floor("C08.valid", "impl SentinelRule::is_valid for flow::Rule", len(cands), 1):
         return
-    b = cands[0]
+    b = f.view(cands[0])
     cls = make_classifier([("calc", ["field:Rule.calculate_strategy"], []), ("WarmUp", ["variant:CalculateStrategy::WarmUp"], []),
                            ("period", ["field:Rule.warm_up_period_sec"], [])])
     w = D.Walker(f, b, cls, max_paths=60000)
